@@ -220,6 +220,21 @@ func (k msgServer) Store(goCtx context.Context, msg *types.MsgStore) (*types.Msg
 	// avoid version conflicts
 	meta, found := k.model.GetMetadata(ctx, proposal.DataId)
 	if found {
+		// the permission check above is skipped when the commit id embeds the data id,
+		// so validate it again for every update of an existing model
+		isValid := meta.Owner == sigDid
+		if !isValid {
+			for _, readwriteDid := range meta.ReadwriteDids {
+				if readwriteDid == sigDid {
+					isValid = true
+					break
+				}
+			}
+		}
+		if !isValid {
+			return nil, sdkerrors.Wrap(types.ErrorNoPermission, "No permission to update the model")
+		}
+
 		if meta.OrderId > orderId {
 			// report error if order id is less than the latest version
 			return nil, sdkerrors.Wrapf(nodetypes.ErrInvalidCommitId, "invalid commitId: %s, detected version conflicts with order: %d", commitId, meta.OrderId)
